@@ -34,6 +34,7 @@ import PyaModel.Spec.Mem
 * unpacking `x1, …, xn = e` without starred target (`unpack_values`, section below) and calls to annotated
   module-level helper functions (the declared return type, whatever the arguments).
 
+* `a + b` and `x += e` on ints / bools / strs (section "`+` on ints and strs");
 * `for x in e: body` without break / continue / else (section "for loops" and the `forS` case of `inferStmt`).
 
 Not modelled: everything else (`while`, break / continue / loop else, try, match, generic / builtin calls, boolean operators as values, comparisons as
@@ -59,6 +60,7 @@ inductive Expr where
   | sub (e : Expr) (i : Int)                  -- `e[i]`, literal int index
   | ite (t : Test) (a b : Expr)               -- `a if t else b`
   | call (f : Nat) (args : List Expr)         -- `h_f(e, …)`: an annotated module-level helper function
+  | add (a b : Expr)                          -- `a + b`
   deriving Repr, Inhabited
 
 inductive Stmt where
@@ -67,6 +69,7 @@ inductive Stmt where
   | ret (e : Expr)
   | unpack (xs : List Var) (e : Expr)         -- `x1, …, xn = e` (plain names, no starred target)
   | forS (x : Var) (e : Expr) (body : List Stmt)   -- `for x in e: body` (no break / continue / else)
+  | aug (x : Var) (e : Expr)                  -- `x += e`
   deriving Repr, Inhabited
 
 /-- A function: the declared parameter types (parameters are the variables 0, 1, …), the declared return types of
@@ -241,7 +244,8 @@ def seqCase (isList : Bool) (ms : List Ty) (lit : Bool) (i : Int) : Ty × Flags 
     if pairs.isEmpty then (.any, { frag := true })
     else (unite (pairs.map (·.2)),
           { frag := pairs.any (·.1) || pairs.any (fun q => match q.2 with | .any => true | _ => false) })
-  | .error => (.any, {})
+  -- "Tuple index out of range": `Any[error]`; how that value fares afterwards is not modelled: flagged
+  | .error => (.any, { frag := true })
 
 /-- subscript of one (non-union) value by a literal int; second component: flags -/
 def sub1 (v : Ty) (i : Int) : Ty × Flags :=
@@ -333,6 +337,66 @@ def unpackVals (v : Ty) (n : Nat) : List Ty × Flags :=
      | (some vs, f) => (vs, f)
      | (none, f) => (List.replicate n .any, f))
 
+/-! ## `+` on ints and strs (`name_check_visitor.py:3712 _visit_binop_internal`, `:3794 _visit_binop_no_mvv`)
+
+The left operand is flattened, the right one is passed as it is; `int.__add__` / `str.__add__` come from typeshed.
+Two literals (the right operand not a union): the call is performed and the result is a literal. Otherwise the declared
+return type: `int` when both sides are int-like (int / bool, literal or not), `str` when both are str-like — except a
+literal str on the left with a union of literal strs on the right, which typeshed's `LiteralString` overload types as
+`LiteralString` (not representable: flagged). Every other combination (tuples, lists, floats, errors) is flagged. -/
+
+/-- int-like: `some (some n)` a literal int / bool of value `n`, `some none` the types `int` / `bool` -/
+def ikind (t : Ty) : Option (Option Int) :=
+  match unannot t with
+  | .known (.int n) => some (some n)
+  | .known (.bool b) => some (some (if b then 1 else 0))
+  | .typed c => if c == C.int || c == C.bool then some none else none
+  | _ => none
+
+/-- str-like: `some (some s)` a literal str, `some none` the type `str` -/
+def skind (t : Ty) : Option (Option String) :=
+  match unannot t with
+  | .known (.str s) => some (some s)
+  | .typed c => if c == C.str then some none else none
+  | _ => none
+
+def isUnion : Ty → Bool
+  | .union _ => true
+  | _ => false
+
+def add1 (l r : Ty) : Ty × Flags :=
+  match ikind l with
+  | some kl =>
+    if (flatten1 r).all (fun m => (ikind m).isSome) && !(flatten1 r).isEmpty then
+      (match kl, (if isUnion r then none else (ikind r).getD none) with
+       | some a, some b => (.known (.int (a + b)), {})
+       | _, _ => (.typed C.int, {}))
+    else (.any, { frag := true })
+  | none =>
+    match skind l with
+    | some kl =>
+      if (flatten1 r).all (fun m => (skind m).isSome) && !(flatten1 r).isEmpty then
+        (match kl, (if isUnion r then none else (skind r).getD none) with
+         | some a, some b => (.known (.str (a ++ b)), {})
+         | some _, none =>
+           -- `LiteralString` when every member on the right is a literal
+           (.typed C.str, { frag := isUnion r && (flatten1 r).all (fun m => match skind m with | some (some _) => true | _ => false) })
+         | _, _ => (.typed C.str, {}))
+      else (.any, { frag := true })
+    | none => (.any, { frag := true })
+
+def addL (r : Ty) : List Ty → List Ty × Flags
+  | [] => ([], {})
+  | l :: ls =>
+    let (t, f) := add1 l r
+    let (ts, g) := addL r ls
+    (t :: ts, f.or g)
+
+/-- `a + b` / the value `x += b` assigns -/
+def addVals (l r : Ty) : Ty × Flags :=
+  let (ts, f) := addL r (flatten1 l)
+  (unite ts, f.or { frag := (flatten1 l).isEmpty })
+
 /-! ## `for` loops: what is iterated (`value.py:2935 concrete_values_from_iterable`, `visit_For` :4207) -/
 
 structure IterInfo where
@@ -363,19 +427,24 @@ def iterL : List Ty → List (Option (List Ty) × Ty) × Flags
     let (rs, g) := iterL vs
     ((r, t) :: rs, f.or g)
 
+def allSameLen : List (Option Nat) → Bool
+  | some n :: rest => decide (n > 0) && rest.all (· == some n)
+  | _ => false
+
+def lenOf (r : Option (List Ty) × Ty) : Option Nat :=
+  match r.1 with
+  | some ms => some ms.length
+  | none => none
+
 def iterInfo (v : Ty) : IterInfo :=
   match v with
   | .union [] => { elem := .union [], always := false, flags := { frag := true } }
   | .union ts =>
-    let (rs, f) := iterL ts
-    let lens := rs.map fun r => match r.1 with | some ms => some ms.length | none => none
-    let concrete := match lens with
-      | some n :: rest => n > 0 && rest.all (· == some n)
-      | _ => false
-    { elem := unite (rs.map (·.2)), always := concrete, flags := f }
+    -- all members with exactly known elements, and the same positive number of them: always entered
+    { elem := unite ((iterL ts).1.map (·.2)), always := allSameLen ((iterL ts).1.map lenOf), flags := (iterL ts).2 }
   | _ =>
-    let (r, t, f) := iter1 v
-    { elem := t, always := (match r with | some ms => !ms.isEmpty | none => false), flags := f }
+    { elem := (iter1 v).2.1, always := (match (iter1 v).1 with | some ms => !ms.isEmpty | none => false),
+      flags := (iter1 v).2.2 }
 
 /-- is the definition node `d` accounted for among `es`: the same node, or an assignment whose value has only members
 that some assignment in `es` has too -/
@@ -397,11 +466,57 @@ def Expr.noIte : Expr → Bool
   | .disp _ es => Expr.noIteL es
   | .sub e _ => e.noIte
   | .call _ es => Expr.noIteL es
+  | .add a b => a.noIte && b.noIte
   | _ => true
 def Expr.noIteL : List Expr → Bool
   | [] => true
   | e :: es => e.noIte && Expr.noIteL es
 end
+
+mutual
+/-- the names that occur as the base of a subscript -/
+def Expr.subBases : Expr → List Var
+  | .sub e _ => (match e with | .var x => [x] | _ => []) ++ e.subBases
+  | .disp _ es => Expr.subBasesL es
+  | .ite _ a b => a.subBases ++ b.subBases
+  | .call _ es => Expr.subBasesL es
+  | .add a b => a.subBases ++ b.subBases
+  | _ => []
+def Expr.subBasesL : List Expr → List Var
+  | [] => []
+  | e :: es => e.subBases ++ Expr.subBasesL es
+end
+
+mutual
+def Stmt.subBases : Stmt → List Var
+  | .assign _ e => e.subBases
+  | .ret e => e.subBases
+  | .unpack _ e => e.subBases
+  | .aug _ e => e.subBases
+  | .forS _ e b => e.subBases ++ Stmt.subBasesL b
+  | .ifs _ b e => Stmt.subBasesL b ++ Stmt.subBasesL e
+def Stmt.subBasesL : List Stmt → List Var
+  | [] => []
+  | s :: ss => s.subBases ++ Stmt.subBasesL ss
+end
+
+mutual
+def Stmt.assigned : Stmt → List Var
+  | .assign x _ => [x]
+  | .ret _ => []
+  | .unpack xs _ => xs
+  | .aug x _ => [x]
+  | .forS x _ b => x :: Stmt.assignedL b
+  | .ifs _ b e => Stmt.assignedL b ++ Stmt.assignedL e
+def Stmt.assignedL : List Stmt → List Var
+  | [] => []
+  | s :: ss => s.assigned ++ Stmt.assignedL ss
+end
+
+/-- a subscript `y[i]` in a loop body that also assigns `y`: pyanalyze resolves the composite variable `y[i]` from only
+part of the definitions of `y` (known class `loopCarriedSubscript`); not modelled: flagged -/
+def carriedSub (x : Var) (body : List Stmt) : Bool :=
+  (x :: Stmt.assignedL body).any fun y => (Stmt.subBasesL body).contains y
 
 /-- loop bodies for which the three-visit model below is exact: assignments and unpackings without conditional
 expressions (no constraint is created inside the loop) -/
@@ -409,6 +524,7 @@ def simpleBody : List Stmt → Bool
   | [] => true
   | .assign _ e :: ss => e.noIte && simpleBody ss
   | .unpack _ e :: ss => e.noIte && simpleBody ss
+  | .aug _ e :: ss => e.noIte && simpleBody ss
   | _ :: _ => false
 
 /-! ## inference -/
@@ -459,9 +575,16 @@ def inferExpr (st : St) (p : Path) : Expr → Ty × St
   | .call f args =>
     -- `visit_Call` on an annotated function: the arguments are visited (and checked — diagnostics are not modelled),
     -- the result is the declared return type whether or not the arguments fit (signature.py check_call)
-    let (_, st1) := inferList st p 0 args
+    let (ts, st1) := inferList st p 0 args
     let t := R.getD f .any
-    (t, { st1 with log := st1.log ++ [(p, t)] })
+    -- (a `Never` argument makes the call `NoReturn` and marks the scope as left: not modelled, flagged)
+    let fl : Flags := { frag := ts.any fun a => match a with | .union [] => true | _ => false }
+    (t, { st1 with flags := st1.flags.or fl, log := st1.log ++ [(p, t)] })
+  | .add a b =>
+    let (va, st1) := inferExpr st (0 :: p) a
+    let (vb, st2) := inferExpr st1 (1 :: p) b
+    let (t, f) := addVals va vb
+    (t, { st2 with flags := st2.flags.or f, log := st2.log ++ [(p, t)] })
 def inferList (st : St) (p : Path) (k : Nat) : List Expr → List Ty × St
   | [] => ([], st)
   | e :: es =>
@@ -474,6 +597,11 @@ end
 def assignAll (st : St) : List Var → List Ty → St
   | x :: xs, v :: vs => assignAll { st with sc := st.sc.set x [.val st.next v], next := st.next + 1 } xs vs
   | _, _ => st
+
+/-- the state in which a visit of a loop body starts: the loop variable is bound to the element value (its definition
+node is the `for` target: the same in every visit), the rest of the scope is `sc` -/
+def forStart (st0 : St) (x : Var) (elem : Ty) (sc : Scope) (fl : Flags) (lg : List (Path × Ty)) : St :=
+  { sc := sc.set x [.val st0.next elem], next := st0.next + 1, flags := fl, log := lg }
 
 /-! Result of a block: the state, and whether the block falls through (no `return` on the way). -/
 mutual
@@ -488,6 +616,13 @@ def inferStmt (st : St) (p : Path) : Stmt → St × Bool
     let (v, st1) := inferExpr R st (0 :: p) e
     let (vs, f) := unpackVals v xs.length
     (assignAll { st1 with flags := st1.flags.or f } xs vs, true)
+  | .aug x e =>
+    -- `visit_AugAssign` :4743: the right operand first, then the target is read, `+` as above (ints and strs have
+    -- no `__iadd__`), then assigned
+    let (vr, st1) := inferExpr R st (0 :: p) e
+    let (vl, st2) := st1.lookup x
+    let (t, f) := addVals vl vr
+    ({ st2 with sc := st2.sc.set x [.val st2.next t], next := st2.next + 1, flags := st2.flags.or f }, true)
   | .forS x e body =>
     -- `visit_For` :4207. Collecting phase: the body is visited from the pre-loop scope, then again from the scope
     -- after the loop; checking phase: once, every read using the definition nodes recorded by BOTH collecting visits
@@ -495,16 +630,16 @@ def inferStmt (st : St) (p : Path) : Stmt → St × Bool
     -- second visit stored. No further iteration: `loopNotFix` records that the result is not a fixed point.
     let (v, st0) := inferExpr R st (0 :: p) e
     let info := iterInfo v
-    let start (sc : Scope) (fl : Flags) (lg : List (Path × Ty)) : St :=
-      { sc := sc.set x [.val st0.next info.elem], next := st0.next + 1, flags := fl, log := lg }
-    let p1 := inferBlock (start st0.sc {} []) (1 :: p) 0 body
+    let p1 := inferBlock (forStart st0 x info.elem st0.sc {} []) (1 :: p) 0 body
     let s2 := if info.always then p1.1.sc else joinScopes p1.1.sc st0.sc
-    let p2 := inferBlock (start s2 {} []) (1 :: p) 0 body
+    let p2 := inferBlock (forStart st0 x info.elem s2 {} []) (1 :: p) 0 body
     let s3 := joinScopes st0.sc p2.1.sc
-    let p3 := inferBlock (start s3 (st0.flags.or info.flags) st0.log) (1 :: p) 0 body
+    let p3 := inferBlock (forStart st0 x info.elem s3 (st0.flags.or info.flags) st0.log) (1 :: p) 0 body
     let after := if info.always then p3.1.sc else joinScopes p3.1.sc st0.sc
     ({ p3.1 with sc := after,
-                 flags := p3.1.flags.or { loopNotFix := !scopeCovers s3 p3.1.sc, frag := !simpleBody body || !p3.2 } }, true)
+                 flags := p3.1.flags.or { loopNotFix := !scopeCovers s3 p3.1.sc,
+                                          frag := !simpleBody body || !p3.2 || p1.1.flags.frag || p2.1.flags.frag ||
+                                                  carriedSub x body } }, true)
   | .ifs tst body els =>
     let (_, st0) := st.lookup tst.var
     let (x, pos) := tst.con
